@@ -15,7 +15,7 @@ import (
 func init() {
 	register("C06", &propDef{
 		Title: "Source addresses print to strings that parse back to the same address",
-		Rules: []func(*Checker){ruleC06Ctor, ruleC06Sanitiser, ruleC06URLPath, ruleC06SubRaw, ruleC06FinalPattern, ruleC06Host, ruleC06CanonURL, aliasRuleFiltered(ruleC07Query, "C07.query", "C06.query", 1, func(o Oblig) bool { return strings.Contains(o.Key, "archive value normalised") }), ruleC06Manifest, ruleC06Print, ruleAddrErrors("C06.errors"), ruleNameAgreement("C06.names", "sourceaddrs")},
+		Rules: []func(*Checker){ruleC06Ctor, ruleC06Sanitiser, ruleC06URLPath, ruleC06SubRaw, ruleC06FinalPattern, ruleC06Host, ruleC06CanonURL, aliasRuleFiltered(ruleC07Query, "C07.query", "C06.query", 1, func(o Oblig) bool { return strings.Contains(o.Key, "archive value normalised") }), ruleC06Manifest, ruleC06Print, ruleAddrErrors("C06.errors"), ruleNameAgreement("C06.names", "sourceaddrs"), ruleURLFields("C06.urlfields")},
 		NotDecided: []string{
 			"the round trip itself: URL escaping, fragments, case folding, registry-address normalisation are facts about string contents",
 			"idempotence of printing for every accepted spelling",
@@ -23,7 +23,7 @@ func init() {
 	})
 	register("C07", &propDef{
 		Title: "Accepted remote addresses always satisfy the documented transport policy",
-		Rules: []func(*Checker){ruleC07Routes, ruleC07Schemes, ruleC07Query, ruleC06SubpathOnly("C07.subpath"), ruleAddrErrors("C07.errors"), ruleNameAgreement("C07.names", "sourceaddrs")},
+		Rules: []func(*Checker){ruleC07Routes, ruleC07Schemes, ruleC07Query, ruleC06SubpathOnly("C07.subpath"), ruleAddrErrors("C07.errors"), ruleNameAgreement("C07.names", "sourceaddrs"), ruleURLFields("C07.urlfields")},
 		NotDecided: []string{
 			"'every address that follows the documented grammar is accepted' (needs the grammar)",
 			"shorthand expansion correctness; query-argument counting beyond the presence of the tests (map contents)",
@@ -595,6 +595,22 @@ func ruleC06Print(c *Checker) {
 			}
 		}
 		c.check(len(missing) == 0, R, p.FuncName(fn), "prints all identifying parts", p.Pos(fn.Pos()), "all identifying fields and separators are used", "String() no longer uses "+strings.Join(missing, ", ")+": distinct addresses would print the same / not parse back")
+		// what is concatenated are the parts' own String() forms: a sibling method of the same signature
+		// (ForDisplay, ForRegistryProtocol, GoString) prints something the parsers do not read back
+		eachInstr(fn, func(in ssa.Instruction) {
+			cl, ok := in.(*ssa.Call)
+			if !ok || cl.Call.IsInvoke() {
+				return
+			}
+			g := cl.Common().StaticCallee()
+			if g == nil || p.InModule(g) || g.Signature.Recv() == nil || g.Signature.Params().Len() != 0 || g.Signature.Results().Len() != 1 || !isStringType(g.Signature.Results().At(0).Type()) {
+				return
+			}
+			if g.Pkg != nil && (g.Pkg.Pkg.Path() == "strings" || g.Pkg.Pkg.Path() == "net/url") {
+				return
+			}
+			c.check(g.Name() == "String", R, p.FuncName(fn), "part printed with its String()#"+g.Name(), p.Pos(cl.Pos()), "String()", "a part of the address is printed with "+g.Name()+"() instead of String(): the host is dropped or shortened, or a Go-syntax form is printed — the result parses back to another address or not at all")
+		})
 		// per return: the "//sub-path" form exactly when the sub-path is not empty; every constant
 		// separator of the type on every return that has no "//" exemption
 		if len(s.consts) > 0 {
@@ -1703,4 +1719,59 @@ func (p *Prog) wrapsParseVersion(o *types.Func) bool {
 		return n > 0
 	}
 	return false
+}
+
+// C07.urlfields — each syntactic check of a URL looks at the part it is about.
+func ruleURLFields(id string) func(*Checker) {
+	return func(c *Checker) {
+		c.rule(id, "In the address package: the argument of url.ParseQuery is the RawQuery field of the URL; the doubled-slash test of a remote URL is made on EscapedPath() of the URL that is kept (the re-parsed one, after it replaced the caller's); a field of a URL overwritten with a case-folded value is overwritten with its own. net/url has a dozen same-typed string fields and accessors: a query check made on Host, a slash check made on the fragment, Scheme lower-cased into RawPath all compile.", 4)
+		p := c.P
+		for _, fn := range p.Funcs {
+			if fn.Package() == nil || fn.Package().Pkg.Path() != p.PkgPath("sourceaddrs") {
+				continue
+			}
+			name := p.FuncName(fn)
+			for _, ci := range callsTo(fn, func(o *types.Func) bool { return isFunc(o, "net/url", "ParseQuery") }) {
+				f := loadedField(ci.Common().Args[0])
+				c.check(f != nil && f.Name() == "RawQuery", id, name, "ParseQuery reads the raw query", p.Pos(ci.Pos()), "url.ParseQuery(u.RawQuery)", "the query-syntax test is applied to another part of the URL than its raw query: a malformed query (a semicolon hiding a forbidden argument from url.URL.Query) is accepted on this route, or well-formed URLs with ';' or '%' elsewhere are refused")
+			}
+			for _, ci := range callsTo(fn, func(o *types.Func) bool { return isFunc(o, "strings", "Contains") }) {
+				if k, ok := constString(ci.Common().Args[1]); !ok || k != "//" {
+					continue
+				}
+				cl, ok := canon(ci.Common().Args[0]).(*ssa.Call)
+				if !ok || cl.Common().StaticCallee() == nil || objPkgPath(calleeObj(cl)) != "net/url" {
+					continue
+				}
+				c.check(cl.Common().StaticCallee().Name() == "EscapedPath", id, name, "doubled slash looked for in the path", p.Pos(ci.Pos()), "strings.Contains(u.EscapedPath(), \"//\")", "the doubled-slash test looks at "+cl.Common().StaticCallee().Name()+"() instead of the escaped path: a path with // is accepted and prints to something that reads back as package + sub-path")
+				// on the URL that is kept: when the function re-parses the URL (url.Parse of its String()), the
+				// tested URL is the re-parsed one
+				var reparsed ssa.Value
+				for _, pc := range callsTo(fn, func(o *types.Func) bool { return isFunc(o, "net/url", "Parse") }) {
+					if pcl, ok := pc.(*ssa.Call); ok {
+						reparsed = extractOf(pcl, 0)
+					}
+				}
+				if reparsed != nil && len(cl.Call.Args) > 0 {
+					c.check(canon(cl.Call.Args[0]) == reparsed, id, name, "doubled slash looked for in the re-parsed URL", p.Pos(ci.Pos()), "the URL tested is the result of url.Parse(u.String())", "the doubled-slash test is made on the caller's URL value, not on its re-parsed canonical form: a hand-assembled URL that hides a path in another field passes, and what it prints does not parse back")
+				}
+			}
+			eachInstr(fn, func(in ssa.Instruction) {
+				st, ok := in.(*ssa.Store)
+				if !ok {
+					return
+				}
+				fa, ok := st.Addr.(*ssa.FieldAddr)
+				if !ok || !isURLField(fa) {
+					return
+				}
+				cl, ok := canon(st.Val).(*ssa.Call)
+				if !ok || !(isFunc(calleeObj(cl), "strings", "ToLower") || isFunc(calleeObj(cl), "strings", "ToUpper") || isFunc(calleeObj(cl), "strings", "TrimSpace")) {
+					return
+				}
+				g := loadedField(cl.Call.Args[0])
+				c.check(g != nil && g == fieldOf(fa), id, name, "URL field "+fieldOf(fa).Name()+" normalised from itself", p.Pos(st.Pos()), "u.F = f(u.F)", "a field of the URL is overwritten with the normalised value of ANOTHER field: the path's (or fragment's) recorded encoding is destroyed, so an escaped slash in it turns into a real one and the address parses to a different value")
+			})
+		}
+	}
 }
